@@ -124,7 +124,13 @@ func init() {
 			}
 			tx.values = append(tx.values, v)
 			tx.scripts = append(tx.scripts, sc)
-			out = append(out, le(v, 8)...)
+			if intBacked(v) {
+				// integer-arithmetic mode: the serialised value bytes are left unconstrained
+				// (over-approximation; keeps the hash terms free of int<->bit-vector conversions)
+				out = append(out, le(e.freshVar("txvalue", BVSort(64)), 8)...)
+			} else {
+				out = append(out, le(v, 8)...)
+			}
 			out = append(out, BVU(8, uint64(len(sc))))
 			out = append(out, sc...)
 		}
@@ -329,6 +335,11 @@ func (e *Exec) hashUFAlways(name string, in []*Term, outBytes int) []*Term {
 	}
 	if e.hashApps == nil {
 		e.hashApps = map[string][]hashApp{}
+	}
+	for _, prev := range e.hashApps[name] {
+		if len(prev.in) == len(in) && sameTerms(prev.in, in) {
+			return splitBytes(prev.out)
+		}
 	}
 	for _, prev := range e.hashApps[name] {
 		if len(prev.in) != len(in) {
